@@ -1,0 +1,1 @@
+pub use crate::units::rib_unit::verif::*;
